@@ -660,9 +660,12 @@ RestorePers(id, res) ==
 -----------------------------------------------------------------------------
 (* Whole-database operations *)
 
-\* compact(): contents unchanged; refuses with savepoints / readers
-Compact(res) ==
+\* compact(): contents unchanged; refuses with savepoints / readers; never makes the file larger;
+\* finishes in a number of passes bounded by the size of the file (R carries the storage length before
+\* and after, the number of sync_data calls and the number of pages of the file before)
+Compact(res, R) ==
   /\ ~wtx.on
+  /\ ("len0" \in DOMAIN R /\ ~IsErr(res)) => (R.len1 <= R.len0 /\ R.syncs <= 8 * (R.pages0 + 8))
   /\ IF DOMAIN Latest.psp # {} THEN IsE(res, "PersistentSavepointExists")
      ELSE IF \E s \in DOMAIN eph : eph[s].valid THEN IsE(res, "EphemeralSavepointExists")
      ELSE IF DOMAIN readers # {} \/ DOMAIN its # {} \/ DOMAIN eph # {}
@@ -718,6 +721,8 @@ Crash(obs) ==
 CrashProbe(p) ==
   /\ CrashAtomic(p.obs)
   /\ "integ" \in DOMAIN p => (p.integ = Ok(TRUE) /\ p.same)
+  \* C11: writing after a reopen never damages existing data (a transaction that adds one table)
+  /\ "write_ok" \in DOMAIN p => p.write_ok
   /\ UNCHANGED kvVars
 
 \* full dump through a view: must be exactly that view
